@@ -67,6 +67,7 @@ func (e *Evidence) add(u *Unit, entry string, st *Stats, dur time.Duration) {
 		"entry": entry, "pkg": u.Pkg, "paths": st.Paths, "outcomes": st.ByOutcome, "assertion_queries_unsat": st.Asserts,
 		"assertions_constant_true": st.AssertsTrivial, "solver_queries": st.Queries, "solver_time_s": round2(st.SolverTime.Seconds()),
 		"wall_s": round2(dur.Seconds()), "max_decisions_on_a_path": st.MaxDecisions, "violations": len(st.Violations),
+		"z3_unknown_then_portfolio": st.PrimaryUnknown, "portfolio_decided_by": st.Fallback,
 	})
 	if b, ok := u.Bounds[e.Tier]; ok {
 		e.Bounds = appendUniq(e.Bounds, u.Pkg+": "+b)
@@ -144,7 +145,7 @@ func (e *Evidence) write(file string) {
 			"solver_queries":                e.Queries,
 			"solver_time_s":                 round2(e.SolverS),
 			"load_time_s":                   round2(e.LoadS),
-			"solver":                        "z3 4.8.12 (z3 -in, incremental)",
+			"solver":                        "z3 4.8.12 (z3 -in, incremental); on unknown: cvc5 1.0 --solve-bv-as-int=sum, z3 5.1.0 (z3-new), cvc5 (one-shot over the path's recorded script)",
 			"per_entry":                     e.Entries,
 			"vacuity_witnesses_reached":     keys(e.Reached),
 			"warnings":                      keys(e.Warnings),
